@@ -29,6 +29,7 @@ class VFS:
         self.files = {}
         self.links = {}        # symbolic links: path -> target path (absolute)
         self.link_mtime = {}   # the link's own (lstat) modification time; default 1
+        self.locale_encoding = None   # "ascii": text files opened without an explicit encoding use the C locale's codec (strict)
         self.cwd = None        # virtual current directory (absolute, below ROOT): relative paths resolve against it and os.getcwd returns it
         self.dirs = {ROOT}
         self.clock = 1000
@@ -156,13 +157,29 @@ def f_stat(p, *a, **k):
     raise FileNotFoundError(2, "No such file or directory (vfs)", vp)
 
 
+def _effective_encoding(a, k):
+    enc = k.get("encoding")
+    if enc is None and len(a) >= 2:
+        enc = a[1]
+    if enc is None and V is not None:
+        enc = V.locale_encoding
+    return enc
+
+
+def _is_ascii_codec(enc):
+    return enc is not None and str(enc).lower().replace("-", "").replace("_", "") in ("ascii", "usascii", "ansix3.41968", "646")
+
+
 class _WFile:
-    def __init__(self, path, binary):
+    def __init__(self, path, binary, encoding=None):
         self.path = path
         self.binary = binary
         self.closed = False
+        self.encoding = encoding
 
     def write(self, data):
+        if not self.binary and _is_ascii_codec(self.encoding) and isinstance(data, str):
+            data.encode("ascii")          # raises UnicodeEncodeError as the real text layer would
         if V.tick("write", self.path):
             cur = V.files.get(self.path)
             if cur is not None:
@@ -212,7 +229,7 @@ def f_open(p, mode="r", *a, **k):
                 V.files[vp][0] = V.now()
             else:
                 V.files[vp] = [V.now(), ""]
-        return _WFile(vp, binary)
+        return _WFile(vp, binary, None if binary else _effective_encoding(a, k))
     if vp not in V.files:
         if V.is_dir(vp):
             raise IsADirectoryError(21, "Is a directory (vfs)", vp)
@@ -220,6 +237,8 @@ def f_open(p, mode="r", *a, **k):
     content = V.files[vp][1]
     if binary:
         return io.BytesIO(content.encode("utf-8"))
+    if _is_ascii_codec(_effective_encoding(a, k)):
+        content.encode("utf-8").decode("ascii")       # raises UnicodeDecodeError if the file holds non-ASCII bytes
     return io.StringIO(content)
 
 
